@@ -3,6 +3,7 @@
   Property theorems about CM.Model.Stack (the model is tied to /repo by the S-BAG correspondence).
 -/
 import CM.Proofs.StackLemmas
+import CM.Proofs.BagWfB
 namespace CM.C02
 open CM
 
@@ -130,5 +131,54 @@ example :
       | .ok s => (match s.field "b" with | .fieldError => true | _ => false) && (s.get "a").isSome && (s.get "c").isSome
                  && !top.defines "b" && !top.inherits "b"
       | .error _ => false) = true := by decide +kernel
+
+
+/-! ### The node level: `connect_bags` itself (`CM.Model.Bag`, tied to /repo by the S-NODE correspondence)
+
+`Den b n t`: the node `n` of the bag `b` computes the term `t` over the bag's input names; `b.Field x t`: the output named
+`x` computes `t`; `Glue l t0 t`: `t` is `t0` with every input name replaced by what the bag `l` computes under that name
+(or left as an input if `l` passes the name on from further upstream, or `missing`). -/
+
+/-- **One layer connected to a pipeline** (`connect_bags(left, right)`, through the function the driver runs): for
+well-formed operands, if the call succeeds then (1) the result is well-formed again; (2) it exposes a field `x` computing
+`t` exactly if the new layer defines `x` as `t0` and `t` is `t0` over the earlier fields, or the new layer passes `x` on
+(it inherits it, or `x` is persistent and not redefined) and the earlier pipeline computed `t`; (3) hence the exposed names
+are those the layer defines plus the earlier ones it passes on; (4) a name still reaches the raw input iff both let it. -/
+theorem node_connect_step {l r0 c : Bag} (hl : l.WF) (hr : r0.WF) (h : connectBags l r0 = .ok c) :
+    c.WF ∧
+    (∀ x t, c.Field x t ↔ (∃ t0, r0.Field x t0 ∧ Glue l t0 t) ∨ (passes l r0 x = true ∧ l.Field x t)) ∧
+    (∀ x, x ∈ names c.outputs ↔ x ∈ names r0.outputs ∨ (x ∈ names l.outputs ∧ passes l r0 x = true)) ∧
+    (∀ x, c.virt.mem x = (l.virt.mem x && r0.virt.mem x)) :=
+  connect_step hl hr h
+
+/-- **Never a stale field, at the node level**: an earlier field that the new layer neither defines nor passes on is not
+exposed by the connected pipeline, whatever the graphs look like. -/
+theorem node_no_stale_field {l r0 c : Bag} (hl : l.WF) (hr : r0.WF) (h : connectBags l r0 = .ok c) (x : String)
+    (hd : x ∉ names r0.outputs) (hp : passes l r0 x = false) : x ∉ names c.outputs := by
+  intro hx
+  rcases ((connect_step hl hr h).2.2.1 x).1 hx with h1 | ⟨_, h1⟩
+  · exact hd h1
+  · rw [hp] at h1; exact absurd h1 (by simp)
+
+/-- a field computes one thing: two derivations of what a node of a well-formed bag computes agree -/
+theorem node_field_functional {b : Bag} (hb : b.WF) {x : String} {t₁ t₂ : BTerm}
+    (h₁ : b.Field x t₁) (h₂ : b.Field x t₂) : t₁ = t₂ := by
+  obtain ⟨o₁, ho₁, hx₁, hd₁⟩ := h₁
+  obtain ⟨o₂, ho₂, hx₂, hd₂⟩ := h₂
+  have : o₁ = o₂ := hb.outNames o₁ ho₁ o₂ ho₂ (hx₁.trans hx₂.symm)
+  subst this
+  exact Den.det hb.single hd₁ hd₂
+
+/-- every bag a chain of layers goes through is well-formed (by induction over the chain, any length) -/
+theorem node_chain_wf {head c : Bag} {tail : List Bag} (hh : head.WF) (ht : ∀ b ∈ tail, b.WF)
+    (h : connectAll head tail = .ok c) : c.WF :=
+  connectAll_wf hh ht h
+
+/-- the executable form of the hypothesis, evaluated by the driver on every bag the real code connects -/
+theorem node_wf_check_sound {b : Bag} (h : b.wfB = true) : b.WF := wfB_sound h
+
+/-- non-vacuity: a Source-like and a Transform-like bag satisfy the hypotheses and connect -/
+example : exSource.wfB = true ∧ exTransform.wfB = true ∧ (connectBags exSource exTransform).toOption.isSome = true := by
+  decide +kernel
 
 end CM.C02
